@@ -13,12 +13,12 @@ def Conv.idLike : Conv → Bool
   | .ident | .text | .validateString | .eflr _ | .eflrOrText _ => true
   | _ => false
 
-theorem applyConv_idLike {c : Conv} {hc : Bool} {rc : Option Nat} {mem : List PStr} {v r : PyVal}
+theorem applyConv_idLike {c : Conv} {hc : Bool} {rc : Except Err (Option Nat)} {mem : List PStr} {v r : PyVal}
     (hc' : c.idLike = true) (h : applyConv c hc rc mem v = .ok r) : r = v := by
   cases c <;> simp [Conv.idLike] at hc' <;> cases v <;> simp [applyConv] at h <;> try (exact h.symm)
   all_goals (repeat' split at h) <;> simp at h <;> try (exact h.symm)
 
-theorem wrap_idLike {c : Conv} {hc : Bool} {rc : Option Nat} {mem : List PStr} {md : Bool}
+theorem wrap_idLike {c : Conv} {hc : Bool} {rc : Except Err (Option Nat)} {mem : List PStr} {md : Bool}
     (hc' : c.idLike = true) :
     (∀ v r, wrapConv c hc rc mem md v = .ok r → r = v) ∧
     (∀ vs rs, wrapConvs c hc rc mem md vs = .ok rs → rs = vs) := by
@@ -50,10 +50,10 @@ def Conv.leafOnly : Conv → Bool
   | .ident => false
   | _ => true
 
-theorem applyConv_list {c : Conv} {hc : Bool} {rc : Option Nat} {mem : List PStr} {l : List PyVal} {r : PyVal}
+theorem applyConv_list {c : Conv} {hc : Bool} {rc : Except Err (Option Nat)} {mem : List PStr} {l : List PyVal} {r : PyVal}
     (hl : c.leafOnly = true) : applyConv c hc rc mem (.list l) ≠ .ok r := by
   cases c <;> simp [Conv.leafOnly] at hl <;> simp [applyConv, intParser, floatParser, isNumber]
-  all_goals (try split) <;> simp [intParser, floatParser, isNumber]
+  all_goals (repeat' split) <;> simp_all [intParser, floatParser, isNumber]
 
 theorem flattenL_cons (v : PyVal) (vs : List PyVal) : flattenL (v :: vs) = flattenV v ++ flattenL vs := by
   simp [flattenL]
@@ -65,7 +65,7 @@ theorem All2_append {α β : Type} {R : α → β → Prop} {a1 a2 : List α} {b
   | cons hr _ ih => exact All2.cons hr ih
 
 /-- a leaf-only converter maps the flattened given values one-to-one onto the flattened held values -/
-theorem wrap_leaves {c : Conv} {hc : Bool} {rc : Option Nat} {mem : List PStr} {md : Bool}
+theorem wrap_leaves {c : Conv} {hc : Bool} {rc : Except Err (Option Nat)} {mem : List PStr} {md : Bool}
     (hl : c.leafOnly = true) :
     (∀ v r, wrapConv c hc rc mem md v = .ok r →
       All2 (fun x y => applyConv c hc rc mem x = .ok y) (flattenV v) (flattenV r)) ∧
@@ -133,7 +133,7 @@ theorem floatParser_spec {v r : PyVal} (h : floatParser v = .ok r) :
   · split at h <;> simp at h; rename_i f hf; exact ⟨f, h.symm, Or.inr (Or.inl ⟨_, rfl, hf⟩)⟩
   · exact ⟨_, h.symm, Or.inl rfl⟩
 
-theorem numeric_spec {intOnly hc : Bool} {rc : Option Nat} {mem : List PStr} {v r : PyVal}
+theorem numeric_spec {intOnly hc : Bool} {rc : Except Err (Option Nat)} {mem : List PStr} {v r : PyVal}
     (h : applyConv (.numeric intOnly) hc rc mem v = .ok r) :
     (∃ i, r = .int i ∧ intOf v = some i) ∨
     (∃ f, r = .float f ∧ (v = .float f ∨ (∃ i, v = .int i ∧ intToF64R i = some f) ∨
@@ -141,22 +141,28 @@ theorem numeric_spec {intOnly hc : Bool} {rc : Option Nat} {mem : List PStr} {v 
   simp only [applyConv] at h
   split at h
   · exact Or.inl (intParser_spec h)
-  · exact Or.inr (floatParser_spec h)
+  · split at h
+    · simp at h
+    · split at h
+      · exact Or.inl (intParser_spec h)
+      · exact Or.inr (floatParser_spec h)
 
 /-- an int-only attribute (DIMENSION, ELEMENT-LIMIT, …) or one with an integer representation code holds integers only -/
-theorem numeric_int_coded {hc : Bool} {rc : Option Nat} {mem : List PStr} {v r : PyVal} {intOnly : Bool}
-    (hi : intOnly = true ∨ ∃ c, rc = some c ∧ intCodes.contains c = true)
+theorem numeric_int_coded {hc : Bool} {rc : Except Err (Option Nat)} {mem : List PStr} {v r : PyVal} {intOnly : Bool}
+    (hi : intOnly = true ∨ ∃ c, rc = .ok (some c) ∧ intCodes.contains c = true)
     (h : applyConv (.numeric intOnly) hc rc mem v = .ok r) : ∃ i, r = .int i ∧ intOf v = some i := by
   simp only [applyConv] at h
-  have : usesIntParser intOnly rc = true := by
-    rcases hi with hi | ⟨c, hc1, hc2⟩
-    · simp [usesIntParser, hi]
-    · simp only [usesIntParser, hc1, hc2, Bool.or_true]
-  rw [if_pos this] at h
-  exact intParser_spec h
+  split at h
+  · exact intParser_spec h
+  · rcases hi with hi | ⟨c, hc1, hc2⟩
+    · contradiction
+    · subst hc1
+      have : usesIntParser false (some c) = true := by simp only [usesIntParser, hc2, Bool.or_true]
+      simp only [this, ↓reduceIte] at h
+      exact intParser_spec h
 
 /-- STATUS attributes hold 0 or 1, and it is the number (or truth value) given -/
-theorem status_spec {hc : Bool} {rc : Option Nat} {mem : List PStr} {v r : PyVal}
+theorem status_spec {hc : Bool} {rc : Except Err (Option Nat)} {mem : List PStr} {v r : PyVal}
     (h : applyConv .status hc rc mem v = .ok r) :
     ∃ i, r = .int i ∧ (i = 0 ∨ i = 1) ∧
       (intOf v = some i ∨ ∃ s ec p, v = .str s ec p ∧ p.asInt = some i) := by
@@ -186,7 +192,7 @@ theorem status_spec {hc : Bool} {rc : Option Nat} {mem : List PStr} {v r : PyVal
   | _ => simp [applyConv] at h
 
 /-- a strict enumeration (and every enumeration in high-compatibility mode) holds only member values -/
-theorem enum_strict {cls : String} {soft an hc : Bool} {rc : Option Nat} {mem : List PStr} {v r : PyVal}
+theorem enum_strict {cls : String} {soft an hc : Bool} {rc : Except Err (Option Nat)} {mem : List PStr} {v r : PyVal}
     (hs : (soft && !hc) = false) (h : applyConv (.enum cls soft an) hc rc mem v = .ok r) :
     (r = .none ∧ v = .none ∧ an = true) ∨
     (∃ s ec p, v = .str s ec p ∧ r = .str s (if ec = some cls then none else ec) p ∧
@@ -204,7 +210,7 @@ theorem enum_strict {cls : String} {soft an hc : Bool} {rc : Option Nat} {mem : 
         · simp at h
 
 /-- in high-compatibility mode a name-like attribute holds only strings over `[A-Z0-9_-]`, non-empty -/
-theorem validateString_hc {rc : Option Nat} {mem : List PStr} {v r : PyVal}
+theorem validateString_hc {rc : Except Err (Option Nat)} {mem : List PStr} {v r : PyVal}
     (h : applyConv .validateString true rc mem v = .ok r) : ∃ s ec p, r = .str s ec p ∧ r = v ∧ hcString s = true := by
   cases v <;> simp [applyConv] at h
   rename_i s ec p
@@ -214,7 +220,7 @@ theorem validateString_hc {rc : Option Nat} {mem : List PStr} {v r : PyVal}
 
 /-- a date-time attribute holds a `datetime` — the one given, or the one the string parses to — or, only where
 floats are allowed, a float -/
-theorem dtime_spec {af hc : Bool} {rc : Option Nat} {mem : List PStr} {v r : PyVal}
+theorem dtime_spec {af hc : Bool} {rc : Except Err (Option Nat)} {mem : List PStr} {v r : PyVal}
     (h : applyConv (.dtime af) hc rc mem v = .ok r) :
     (∃ t, r = .dtime t ∧ (v = .dtime t ∨ ∃ s ec p, v = .str s ec p ∧ p.asDtime = some t)) ∨
     (af = true ∧ ∃ f, r = .float f) := by
@@ -240,7 +246,7 @@ theorem dtime_spec {af hc : Bool} {rc : Option Nat} {mem : List PStr} {v r : PyV
 theorem flattenV_items (v : PyVal) : flattenL (itemsOf v) = flattenV v := by
   cases v <;> simp [itemsOf, flattenL, flattenV]
 
-theorem convertValue_multivalued {a : AttrSpec} {hc : Bool} {rc : Option Nat} {mem : List PStr} {v r : PyVal}
+theorem convertValue_multivalued {a : AttrSpec} {hc : Bool} {rc : Except Err (Option Nat)} {mem : List PStr} {v r : PyVal}
     (hm : a.multivalued = true) (h : convertValue a hc rc mem v = .ok r) : ∃ l, r = .list l := by
   simp only [convertValue, hm, ↓reduceIte] at h
   cases hw : wrapConvs a.conv hc rc mem a.multidim (itemsOf v) with
@@ -249,7 +255,7 @@ theorem convertValue_multivalued {a : AttrSpec} {hc : Bool} {rc : Option Nat} {m
 
 /-- identity-like converters (plain, text, names, references): the attribute holds exactly the values given, in
 order — as a list when the attribute is multivalued -/
-theorem convertValue_idLike {a : AttrSpec} {hc : Bool} {rc : Option Nat} {mem : List PStr} {v r : PyVal}
+theorem convertValue_idLike {a : AttrSpec} {hc : Bool} {rc : Except Err (Option Nat)} {mem : List PStr} {v r : PyVal}
     (hi : a.conv.idLike = true) (h : convertValue a hc rc mem v = .ok r) :
     r = (if a.multivalued then .list (itemsOf v) else v) := by
   simp only [convertValue] at h
@@ -266,7 +272,7 @@ theorem convertValue_idLike {a : AttrSpec} {hc : Bool} {rc : Option Nat} {mem : 
 
 /-- every other converter: the held values correspond one-to-one, in order, to the values given, each being the
 converter's image of the given one -/
-theorem convertValue_leaves {a : AttrSpec} {hc : Bool} {rc : Option Nat} {mem : List PStr} {v r : PyVal}
+theorem convertValue_leaves {a : AttrSpec} {hc : Bool} {rc : Except Err (Option Nat)} {mem : List PStr} {v r : PyVal}
     (hl : a.conv.leafOnly = true) (h : convertValue a hc rc mem v = .ok r) :
     All2 (fun x y => applyConv a.conv hc rc mem x = .ok y) (flattenV v) (flattenV r) := by
   simp only [convertValue] at h
